@@ -188,6 +188,9 @@ func (m *runtimeContextManager) requireCPU(cpuAmount uint64) {
 		m.KillContext()
 	}
 	cpuUsed := m.usedResources.Cpu + cpuAmount
+	if cpuUsed < cpuAmount {
+		cpuUsed = ^uint64(0) // the sum overflowed: saturate
+	}
 	if atLimit(cpuUsed, m.hardLimits.Cpu) {
 		m.terminateAtLimit(cpuResource, "CPU limit of %d exceeded", m.hardLimits.Cpu)
 	}
@@ -216,6 +219,9 @@ func (m *runtimeContextManager) requireMem(memAmount uint64) {
 		m.KillContext()
 	}
 	memUsed := m.usedResources.Memory + memAmount
+	if memUsed < memAmount {
+		memUsed = ^uint64(0) // the sum overflowed: saturate
+	}
 	if atLimit(memUsed, m.hardLimits.Memory) {
 		m.terminateAtLimit(memoryResource, "memory limit of %d exceeded", m.hardLimits.Memory)
 	}
